@@ -107,6 +107,64 @@ Proof.
   - rewrite (ok_size K hash _ H1), (ok_size K hash t Hok), <- !(abs_length K), H2, insert_at_length. lia.
 Qed.
 
+(* The iterator insert() returns - and with it the references append() / prepend() return, which the code takes from
+   that iterator (insert(..).item->value) - designates the entry that find(key) reaches in the table AFTER the call:
+   same rank, the key itself, the value stored at that rank.  Such an entry always exists. *)
+Lemma insert_returns_found kd t pos k v :
+  chains_ok t -> (pos <= length (order t))%nat ->
+  snd (insert kd t pos k v) = it_of (find_node (fst (insert kd t pos k v)) k) /\
+  exists r v', snd (insert kd t pos k v) = Some (r, k, v') /\
+               nth_error (abs (fst (insert kd t pos k v))) r = Some (k, v').
+Proof.
+  intros Hok Hp.
+  destruct (insert_refines K keqb hash keqb_spec kd t pos k v Hok Hp) as [H1 [H2 H3]].
+  split.
+  - rewrite H3. symmetry. apply (find_refines K keqb hash keqb_spec). exact H1.
+  - destruct (in_dec (keqb_dec K keqb keqb_spec) k (map fst (abs t))) as [Hin|Hni].
+    + apply in_map_iff in Hin. destruct Hin as [[k0 v0] [Ek Hin]]. cbn [fst] in Ek. subst k0.
+      apply In_nth_error in Hin. destruct Hin as [r Hr].
+      assert (Hlt : (r < length (abs t))%nat) by (apply nth_error_Some; rewrite Hr; discriminate).
+      destruct kd.
+      * destruct (insert_present_map t pos k v r v0 Hok Hr) as [Ha [Hs _]].
+        exists r, v. split; [exact Hs|]. rewrite Ha. apply nth_error_upd_same. exact Hlt.
+      * rewrite (insert_present_untouched KSet t pos k v r v0 ltac:(discriminate) Hok Hr). cbn [fst snd].
+        exists r, v0. split; [reflexivity|exact Hr].
+      * rewrite (insert_present_untouched KPool t pos k v r v0 ltac:(discriminate) Hok Hr). cbn [fst snd].
+        exists r, v0. split; [reflexivity|exact Hr].
+    + assert (Hp' : (pos <= length (abs t))%nat) by (rewrite (abs_length K); exact Hp).
+      destruct (insert_new kd t pos k v Hok Hni Hp') as [Ha [Hs _]].
+      exists pos, (ins_value kd v). split; [exact Hs|]. rewrite Ha. apply nth_error_insert_at. exact Hp'.
+Qed.
+
+(* the same for the three operations of a history: the result of append / prepend is the value of the entry find(k)
+   designates afterwards (RVal; nothing for the set), the result of insert is that iterator *)
+Lemma insert_ops_return_found kd st x t pos k v :
+  state_ok st -> nth_error st x = Some t -> (pos <= length (order t))%nat ->
+  let t' := fst (insert kd t pos k v) in
+  it_of (find_node t' k) = snd (insert kd t pos k v) /\
+  (op_allowed kd (OInsert x pos k v) = true ->
+   step kd st (OInsert x pos k v) = (upd x t' st, RIter (it_of (find_node t' k)))) /\
+  (op_allowed kd (OAppend x k v) = true -> pos = length (order t) ->
+   step kd st (OAppend x k v) = (upd x t' st, value_res kd (it_of (find_node t' k)))) /\
+  (op_allowed kd (OPrepend x k v) = true -> pos = O ->
+   step kd st (OPrepend x k v) = (upd x t' st, value_res kd (it_of (find_node t' k)))).
+Proof.
+  intros Hst E Hp t'.
+  assert (Hok : chains_ok t) by (exact (state_ok_nth K hash st x t Hst E)).
+  destruct (insert_returns_found kd t pos k v Hok Hp) as [Hf _]. fold t' in Hf.
+  split; [symmetry; exact Hf|].
+  rewrite <- Hf. unfold t'.
+  split; [|split].
+  - intros Ha. unfold HashModel.step. rewrite Ha. cbn [negb]. unfold with_var. rewrite E.
+    assert (Hle : (Z.of_nat pos <=? size t) = true).
+    { apply Z.leb_le. rewrite (ok_size K hash t Hok). lia. }
+    rewrite Hle. destruct (insert kd t pos k v). reflexivity.
+  - intros Ha ->. unfold HashModel.step. rewrite Ha. cbn [negb]. unfold with_var. rewrite E.
+    destruct (insert kd t (length (order t)) k v). reflexivity.
+  - intros Ha ->. unfold HashModel.step. rewrite Ha. cbn [negb]. unfold with_var. rewrite E.
+    destruct (insert kd t O k v). reflexivity.
+Qed.
+
 Lemma invariant_step kd st o : state_ok st -> state_ok (fst (step kd st o)).
 Proof. intros H. apply (step_ok K keqb hash keqb_spec kd st o H). Qed.
 
